@@ -69,7 +69,8 @@ def check(R):
             raise AnchorLost('the reserve passed to shrink() is not a named constant')
         s1 = {x[1] for x in prims.sources(sr, sh[0].d['a'][1]) if x[0] == 'constp'}
         s2 = {x[1] for x in prims.sources(er, exn[0].d['a'][1]) if x[0] == 'constp'}
-        R.expect('P6', RD, 'the space reserved at start is exactly the space released for the trailer', s1 == s2 == {res}, f'shrink({res.split("::")[-1]}) / expand(same) = {Rv}', f'shrink {s1} vs expand {s2}')
+        k2 = exn[0].d['a'][1].get('k', {})
+        R.expect('P6', RD, 'the space reserved at start is exactly the space released for the trailer', s1 == s2 == {res} and k2.get('p') == res and k2.get('v') == Rv, f'shrink({res.split("::")[-1]}) / expand(same) = {Rv}', f'shrink {s1} vs expand {s2}')
         R.expect('P3', er.fn, 'expand precedes every trailer write', not prims.precedes(er, [exn[0].bb], [t.bb for t in er.calls() if t.d.get('f', '').startswith('tlv::write::TLVWrite::')]), 'ok', 'a write before expand')
 
         def cost(bb):
